@@ -159,9 +159,9 @@ impl Env {
         (match r { Ok(Ok(())) => 0, Ok(Err(_)) => 1, Err(_) => 2 }, m)
     }
 
-    /// C10 (1): fail every write call of a save in turn (needs patches/hook-rdb-failat.diff in /repo
-    /// and `--cfg ferrous_verif_rdb_failat` for this crate)
-    #[cfg(ferrous_verif_rdb_failat)]
+    /// C10 (1): fail every write call of a save in turn (hook 23b5491: storage::rdb::verif, compiled
+    /// under the ordinary `--cfg ferrous_verif`)
+    #[cfg(ferrous_verif)]
     fn failsweep(&mut self) -> Vec<Tok> {
         use ferrous::storage::rdb::verif;
         let rdb = self.rdb(); let eng = self.eng.clone();
@@ -180,9 +180,9 @@ impl Env {
         let later = rdb.save(&eng).is_ok() && { self.clear_engine(); self.load_current().0 == 0 };
         vec![Tok::I(n as i128), i(all_err as i64), i(unchanged as i64), i(later as i64)]
     }
-    #[cfg(not(ferrous_verif_rdb_failat))]
+    #[cfg(not(ferrous_verif))]
     fn failsweep(&mut self) -> Vec<Tok> { vec![b("NOHOOK")] }
-    pub fn has_failat_hook() -> bool { cfg!(ferrous_verif_rdb_failat) }
+    pub fn has_failat_hook() -> bool { cfg!(ferrous_verif) }
 
     /// one op: (rewritten op, output)
     pub fn op(&mut self, prop: &str, op: &[Tok]) -> (Vec<Tok>, Vec<Tok>) {
